@@ -520,8 +520,10 @@ Proof.
   - intro A. apply U. split; [exact A|]. split; [lia|exact Hs].
 Qed.
 
+(* FWD_SHAPE(Split) goes through the slice rule, so every axis is accepted (an axis >= 8
+   has size 1 and forces n = 1) *)
 Definition split_admissible (x : shape) (dim n : N) : Prop :=
-  0 < n /\ get x dim mod n = 0 /\ dim < 8.
+  0 < n /\ get x dim mod n = 0.
 
 Theorem split_spec x dim n : wf x -> u32 dim -> u32 n ->
   match split x dim n with
@@ -541,11 +543,12 @@ Proof.
   destruct (N.eqb_spec (span * n) (get x dim)) as [E1|E1]; cbn [negb]; [|lia].
   assert (Hsp : 0 < span /\ span <= get x dim) by nia.
   assert (Hspu : u32 span) by (unfold u32 in *; lia).
-  pose proof (update_dim_spec x dim span Hx Hd Hspu) as U. unfold update_dim_admissible in U.
-  assert (Hs : prodN (dims x) / get x dim * span * batch x < P32) by (apply shrink_size; [exact Hx|lia]).
-  destruct (update_dim x dim span) as [r|].
-  - destruct U as [[Ua _] [Uw [Ub [Ug _]]]]. split; [lia|]. tauto.
-  - intros [_ [_ A]]. apply U. split; [exact A|]. split; [lia|exact Hs].
+  assert (H0u : u32 0) by (unfold u32, P32; lia).
+  pose proof (slice_spec x dim 0 span Hx Hd H0u Hspu) as U. unfold slice_admissible in U.
+  rewrite N.sub_0_r in U.
+  destruct (slice x dim 0 span) as [r|].
+  - destruct U as [_ [Uw [Ub Ug]]]. split; [lia|]. tauto.
+  - exfalso. apply U. lia.
 Qed.
 
 (* ------------------------------------------------------------------------------------ *)
@@ -1142,6 +1145,24 @@ Proof.
   unfold P32, P64 in *. lia.
 Qed.
 
+Lemma le_mul_r1 a b : 1 <= b -> a <= a * b.
+Proof. intro H. rewrite <- (N.mul_1_r a) at 1. apply N.mul_le_mono_l. exact H. Qed.
+
+Lemma le_mul_l1 a b : 1 <= a -> b <= a * b.
+Proof. intro H. rewrite <- (N.mul_1_l b) at 1. apply N.mul_le_mono_r. exact H. Qed.
+
+Lemma le_mul4_1 a b c d : 1 <= b -> 1 <= c -> 1 <= d -> a <= a * b * c * d.
+Proof.
+  intros Hb Hc Hd. eapply N.le_trans; [apply (le_mul_r1 a b Hb)|].
+  eapply N.le_trans; [apply (le_mul_r1 (a * b) c Hc)|]. apply le_mul_r1. exact Hd.
+Qed.
+
+Lemma le_mul4_2 a b c d : 1 <= a -> 1 <= c -> 1 <= d -> b <= a * b * c * d.
+Proof.
+  intros Ha Hc Hd. eapply N.le_trans; [apply (le_mul_l1 a b Ha)|].
+  eapply N.le_trans; [apply (le_mul_r1 (a * b) c Hc)|]. apply le_mul_r1. exact Hd.
+Qed.
+
 (* documented output extent of a convolution / pooling axis *)
 Definition conv_out (xi p w d s : N) : N := (xi + 2 * p - ((w - 1) * d + 1)) / s + 1.
 Definition pool_out (xi p w s : N) : N := (xi + 2 * p - w) / s + 1.
@@ -1211,12 +1232,9 @@ Proof.
   assert (Py1 : 1 <= y1) by (subst y1; apply N.le_add_l).
   set (B := N.max (batch x) (batch w)) in *.
   assert (PB : 1 <= B) by (subst B; lia).
-  assert (Hge0 : y0 <= y0 * y1 * get w 3 * B).
-  { assert (y0 <= y0 * y1) by nia. assert (y0 * y1 <= y0 * y1 * get w 3) by nia.
-    assert (y0 * y1 * get w 3 <= y0 * y1 * get w 3 * B) by nia. lia. }
-  assert (Hge1 : y1 <= y0 * y1 * get w 3 * B).
-  { assert (y1 <= y0 * y1) by nia. assert (y0 * y1 <= y0 * y1 * get w 3) by nia.
-    assert (y0 * y1 * get w 3 <= y0 * y1 * get w 3 * B) by nia. lia. }
+  assert (Pw3' : 1 <= get w 3) by lia.
+  pose proof (le_mul4_1 y0 y1 (get w 3) B Py1 Pw3' PB) as Hge0.
+  pose proof (le_mul4_2 y0 y1 (get w 3) B Py0 Pw3' PB) as Hge1.
   destruct (N.ltb_spec U32MAX y0) as [C11|C11]; cbn [orb].
   { intros [_ [_ [_ [_ [_ [_ [_ [_ [_ [_ A]]]]]]]]]]. unfold U32MAX, P32 in *. lia. }
   destruct (N.ltb_spec U32MAX y1) as [C12|C12].
@@ -1277,12 +1295,9 @@ Proof.
   set (y0 := (X0 - w0) / s0 + 1) in *. set (y1 := (X1 - w1) / s1 + 1) in *.
   assert (Py0 : 1 <= y0) by (subst y0; apply N.le_add_l).
   assert (Py1 : 1 <= y1) by (subst y1; apply N.le_add_l).
-  assert (Hge0 : y0 <= y0 * y1 * get x 2 * batch x).
-  { assert (y0 <= y0 * y1) by nia. assert (y0 * y1 <= y0 * y1 * get x 2) by nia.
-    assert (y0 * y1 * get x 2 <= y0 * y1 * get x 2 * batch x) by nia. lia. }
-  assert (Hge1 : y1 <= y0 * y1 * get x 2 * batch x).
-  { assert (y1 <= y0 * y1) by nia. assert (y0 * y1 <= y0 * y1 * get x 2) by nia.
-    assert (y0 * y1 * get x 2 <= y0 * y1 * get x 2 * batch x) by nia. lia. }
+  assert (Px2' : 1 <= get x 2) by lia. assert (Hbx' : 1 <= batch x) by lia.
+  pose proof (le_mul4_1 y0 y1 (get x 2) (batch x) Py1 Px2' Hbx') as Hge0.
+  pose proof (le_mul4_2 y0 y1 (get x 2) (batch x) Py0 Px2' Hbx') as Hge1.
   destruct (N.ltb_spec U32MAX y0) as [C11|C11]; cbn [orb].
   { intros [_ [_ [_ [_ [_ [_ [_ A]]]]]]]. unfold U32MAX, P32 in *. lia. }
   destruct (N.ltb_spec U32MAX y1) as [C12|C12].
